@@ -21,8 +21,8 @@ func c13Scenario(clients []gridClient) *explore.Scenario {
 			g := clients[x.Choose("client", len(clients))]
 			smax := maxes[x.Choose("srv.max", len(maxes))]
 			legacy := x.Choose("srv.legacy", 2) == 1 // negotiate from legacy_version only
-			canary := x.Choose("srv.canary", 4)       // 0 honest, 1 stripped, 2 / 3 forged: RFC 8446 sentinel DOWNGRD\x01 / DOWNGRD\x00
-			cliCfg := x.Choose("cli.versions", 3) // 0 untouched Config, 1 Config.MinVersion = TLS 1.0, 2 Config.MaxVersion = TLS 1.2
+			canary := x.Choose("srv.canary", 4)      // 0 honest, 1 stripped, 2 / 3 forged: RFC 8446 sentinel DOWNGRD\x01 / DOWNGRD\x00
+			cliCfg := x.Choose("cli.versions", 3)    // 0 untouched Config, 1 Config.MinVersion = TLS 1.0, 2 Config.MaxVersion = TLS 1.2
 			h0, err := g.probeHello()
 			if err != nil {
 				r.Obs = "no-hello"
@@ -41,7 +41,7 @@ func c13Scenario(clients []gridClient) *explore.Scenario {
 					min := uint16(tls.VersionTLS10)
 					if g.Spec == nil {
 						if sp, err := tls.UTLSIdToSpec(g.ID); err == nil && sp.TLSVersMin != 0 {
-								min = sp.TLSVersMin
+							min = sp.TLSVersMin
 						}
 					}
 					adv = map[uint16]bool{}
